@@ -276,8 +276,9 @@ def r1_fit(ctx, repo, cls):
             elif v[1][1] != est.recv:
                 ctx.undecided("R1", key, "steps_[i] receives %s" % res.fmt(v[1][1]), loc_of(s))
             elif as_position(res, s.index) != tl.index or tl.rev or const(tl.sl[1] if tl.sl else NONE, 0) not in (None, 0):
-                if is_const(s.index) or (isinstance(s.index, tuple) and s.index[0] == "idx") or \
-                        (isinstance(s.index, tuple) and s.index[0] == "binop" and tl.index in s.index[2:] and any(is_const(x) and x[1] for x in s.index[2:])):
+                pidx = as_position(res, s.index)
+                if is_const(pidx) or (isinstance(pidx, tuple) and pidx[0] == "idx") or \
+                        (isinstance(pidx, tuple) and pidx[0] == "binop" and tl.index in pidx[2:] and any(is_const(x) and x[1] for x in pidx[2:])):
                     ctx.violation("R1", key, "the fitted transformer is stored at position %s, not at its own position" % res.fmt(s.index), loc_of(s))
                 else:
                     ctx.undecided("R1", key, "cannot relate the store index %s to the loop position" % res.fmt(s.index), loc_of(s))
